@@ -32,7 +32,6 @@ use std::io::Write;
 use std::str::FromStr;
 use std::sync::atomic::{AtomicBool, Ordering};
 use std::sync::Arc;
-use tokio::io::{AsyncBufReadExt, BufReader};
 
 pub static PANICKED: AtomicBool = AtomicBool::new(false);
 
@@ -204,8 +203,25 @@ pub async fn run() {
         default_hook(info);
     }));
 
-    let mut lines = BufReader::new(tokio::io::stdin()).lines();
-    let cfg_line = lines.next_line().await.unwrap().expect("cfg line");
+    // stdin is read by a plain OS thread: a tokio blocking task parked in read() would keep the
+    // runtime from shutting down the way the real server's `main` does.
+    let (ltx, lrx) = flume::unbounded::<String>();
+    std::thread::spawn(move || {
+        let stdin = std::io::stdin();
+        let mut line = String::new();
+        loop {
+            line.clear();
+            match stdin.read_line(&mut line) {
+                Ok(0) | Err(_) => break,
+                Ok(_) => {
+                    if ltx.send(line.clone()).is_err() {
+                        break;
+                    }
+                }
+            }
+        }
+    });
+    let cfg_line = lrx.recv_async().await.expect("cfg line");
     let c = kv(&cfg_line);
     let get = |k: &str, d: &str| c.get(k).cloned().unwrap_or_else(|| d.to_string());
     let dir = get("dir", "/tmp/iggy-verif-node");
@@ -290,7 +306,7 @@ pub async fn run() {
     println!("ready {}", node.addr);
     std::io::stdout().flush().unwrap();
 
-    while let Ok(Some(line)) = lines.next_line().await {
+    while let Ok(line) = lrx.recv_async().await {
         let line = line.trim().to_string();
         if line.is_empty() || line.starts_with('#') {
             continue;
@@ -304,9 +320,12 @@ pub async fn run() {
         println!("{res}");
         std::io::stdout().flush().unwrap();
         if f[0] == "shutdown" {
-            std::process::exit(0);
+            // like the real `main`: return and let the runtime shut down (in-flight file writes of
+            // tokio::fs are mandatory blocking tasks and complete during runtime shutdown)
+            return;
         }
     }
+    // stdin closed without a shutdown: this is a crash
     std::process::exit(0);
 }
 
